@@ -181,10 +181,13 @@ Launch(c, pur, bf) ==
   /\ Deliver("C", [id |-> c, st |-> "LAUNCHED", path |-> <<>>, pur |-> pur, bf |-> bf])
   /\ TorStep /\ UNCHANGED <<phase, ts>>
 
-Extend(c, r) ==
-  /\ tc[c].st \in {"LAUNCHED", "EXTENDED"} /\ Len(tc[c].path) < MaxPath /\ r \in Relays
-  /\ tc' = [tc EXCEPT ![c].st = "EXTENDED", ![c].path = Append(@, r)]
-  /\ Deliver("C", [id |-> c, st |-> "EXTENDED", path |-> Append(tc[c].path, r), pur |-> tc[c].pur, bf |-> tc[c].bf])
+\* a hop is added.  Tor also extends circuits that are already BUILT (it cannibalises a built general
+\* circuit, e.g. for an onion-service rendezvous: one more hop, possibly a new purpose, then BUILT again)
+Extend(c, r, pur) ==
+  /\ tc[c].st \in {"LAUNCHED", "EXTENDED", "BUILT"} /\ Len(tc[c].path) < MaxPath /\ r \in Relays
+  /\ pur \in Purposes /\ (tc[c].st # "BUILT" => pur = tc[c].pur)
+  /\ tc' = [tc EXCEPT ![c].st = "EXTENDED", ![c].path = Append(@, r), ![c].pur = pur]
+  /\ Deliver("C", [id |-> c, st |-> "EXTENDED", path |-> Append(tc[c].path, r), pur |-> pur, bf |-> tc[c].bf])
   /\ TorStep /\ UNCHANGED <<phase, ts>>
 
 Built(c) ==
@@ -343,7 +346,7 @@ Init ==
 
 TorNext ==
   \/ \E c \in CircIds, p \in Purposes, bf \in 1..2 : Launch(c, p, bf)
-  \/ \E c \in CircIds, r \in Relays : Extend(c, r)
+  \/ \E c \in CircIds, r \in Relays, p \in Purposes : Extend(c, r, p)
   \/ \E c \in CircIds : Built(c) \/ CircGone(c)
   \/ \E s \in StreamIds, st \in {"NEW", "NEWRESOLVE"}, t \in Targets, a \in Srcs : StreamNew(s, st, t, a)
   \/ \E s \in StreamIds, c \in CircIds : SentConnect(s, c)
